@@ -26,12 +26,12 @@ ToSetOf(s) == { s[i] : i \in 1..Len(s) }
 IsEvent(e) == l <= Len(Trace) /\ Trace[l].e = e /\ l' = l + 1
 
 \* nothing runs until the first "reset" line starts a watcher
-TInit == /\ content = 0 /\ edits = 0 /\ timer = FALSE /\ spawned = 1
+TInit == /\ content = 0 /\ prev = 0 /\ edits = 0 /\ timer = FALSE /\ spawned = 1
          /\ st = [r \in Regens |-> "none"] /\ ver = [r \in Regens |-> None] /\ wrote = [r \in Regens |-> 0]
          /\ lock = 0 /\ out = [f \in Files |-> None] /\ hist = <<>> /\ watched = {"main"} /\ l = 1 /\ pend = 0
 
 TReset == /\ IsEvent("reset") /\ Drained /\ pend = 0 /\ UNCHANGED pend
-          /\ content' = Trace[l].version /\ content' > content
+          /\ content' = Trace[l].version /\ content' > content /\ prev' = content'
           /\ edits' = edits /\ timer' = FALSE /\ spawned' = 1
           /\ st' = [r \in Regens |-> IF r = 1 THEN "spawned" ELSE "none"]
           /\ ver' = [r \in Regens |-> None] /\ wrote' = [r \in Regens |-> 0] /\ lock' = 0
@@ -43,7 +43,7 @@ TEditBegin == IsEvent("editbegin") /\ pend = 0 /\ pend' = l /\ UNCHANGED vars
 ApplyEdit == pend # 0 /\ DoEdit(pend) /\ pend' = 0 /\ l' = l
 TEditEnd == IsEvent("editend") /\ \/ (pend # 0 /\ DoEdit(pend) /\ pend' = 0)
                                   \/ (pend = 0 /\ UNCHANGED <<vars, pend>>)
-TFsEvent == IsEvent("fsevent") /\ timer' = TRUE /\ UNCHANGED <<content, edits, spawned, st, ver, wrote, lock, out, hist, watched, pend>>
+TFsEvent == IsEvent("fsevent") /\ timer' = TRUE /\ UNCHANGED <<content, prev, edits, spawned, st, ver, wrote, lock, out, hist, watched, pend>>
 TStart == IsEvent("start") /\ UNCHANGED pend /\ \E r \in Regens : Acquire(r) /\ st'[r] = "running"
 TRead == IsEvent("read") /\ UNCHANGED pend /\ \E r \in Regens : Read(r) /\ (Trace[l].ok <=> st'[r] = "read")
 TWrite == IsEvent("write") /\ UNCHANGED pend /\ \E r \in Regens : Write(r)
